@@ -1307,8 +1307,11 @@ def run(ctx):
         ctx.count(("lattice grid", late, small, csz in DEC_CSZ, csz in DYA_CSZ))
         return g, vals, spec
 
+    model_budget = [ctx.scale(110, 1500)]       # case terms (the other cases: implementation-level oracle only)
+
     def lattice_case(nrows, ncols, tag):
-        small = nrows * ncols <= 900
+        small = nrows * ncols <= 240 and model_budget[0] > 0
+        model_budget[0] -= small
         g, vals, spec = lattice_grid(nrows, ncols, small)
         box, kinds = lattice_box(g)
         if box is None:
@@ -1318,16 +1321,23 @@ def run(ctx):
         # a clip of the clip: the clip is a grid like any other (its corner was computed, not typed)
         if c is not None and rng.random() < 0.35:
             cvals = np.ascontiguousarray(c.data).copy()
-            if not (cvals.dtype == vals.dtype and int(c.nrows) * int(c.ncols) <= 900):
+            if cvals.dtype != vals.dtype:
                 return
             box2, kinds2 = lattice_box(c)
             if box2 is not None:
-                case_clip(c, cvals, box2, f"{tag}; clip of a clip, corner kinds {kinds2}", model=True)
+                small2 = cvals.size <= 240 and model_budget[0] > 0
+                model_budget[0] -= small2
+                case_clip(c, cvals, box2, f"{tag}; clip of a clip, corner kinds {kinds2}", model=small2,
+                          spec=None if cvals.size <= 2000 else
+                          {"grid": Meta.of(c).js(), "values": "clip of the cell-index grid", "parent": base_of(spec, g)})
+
+    def base_of(spec, g):
+        return spec if spec is not None else {"grid": Meta.of(g).js()}
 
     def lattice_side(cls):
         return {0: rng.randint(1, 7), 1: rng.randint(8, 30), 2: rng.randint(31, 160), 3: rng.randint(161, 850)}[cls]
 
-    for k in range(ctx.scale(170, 2400)):
+    for k in range(ctx.scale(700, 9000)):
         cls = rng.choice([0, 1, 1, 1, 1, 2, 2]) if k % 17 else 3
         other = cls if rng.random() < 0.7 else rng.choice([0, 1, 2])
         sides = [lattice_side(cls), lattice_side(other)]
